@@ -175,6 +175,32 @@ func c19Run(c *core.Ctx, idx int) {
 		hist[i] = pool[c.Rng.Intn(len(pool))]
 	}
 
+	// A rule that lives in two buckets, with another rule of the second bucket
+	// before it in the file: asking through the first bucket materialises it,
+	// and after the fault the second bucket holds [unread, materialised].
+	if c.Rng.Intn(2) == 0 && len(pool) >= 2 {
+		qa, qb := pool[0], pool[1]
+		if kind == "dns" && qa.Host != qb.Host && !strings.Contains(qa.Host+qb.Host, ":") {
+			lines = append([]string{"0.0.0.0 " + qb.Host, "0.0.0.1 " + qa.Host + " " + qb.Host}, lines...)
+			hist[0], hist[len(hist)-1] = qa, qb
+			c.Event("lists_with_rule_in_two_buckets", 1)
+		} else if kind != "dns" {
+			sa, sb := "d-one.example", "d-two.example"
+			a := &gen.Req{URL: "http://x.example/zz/1", Source: "http://" + sa + "/", Type: rules.TypeScript}
+			b := &gen.Req{URL: "http://x.example/zz/2", Source: "http://" + sb + "/", Type: rules.TypeScript}
+			lines = append([]string{"/zz/$domain=" + sb, "/zz/$script,domain=" + sa + "|" + sb}, lines...)
+			pool = append(pool, a, b)
+			hist[0], hist[len(hist)-1] = a, b
+			c.Event("lists_with_rule_in_two_buckets", 1)
+		}
+		content = util.Lines(lines)
+		if werr := os.WriteFile(file, []byte(content), 0o644); werr != nil {
+			c.Inconclusive("cannot write scratch file")
+
+			return
+		}
+	}
+
 	// Half of the cases: the list is longer than the 4 KiB read block and a
 	// rule straddles a block boundary exactly where cutting it leaves a valid,
 	// broader rule (the part before '$', before ',' or before '|') that matches
